@@ -116,3 +116,10 @@ Theorem C02_between_maxmin : forall a (Ha : (0 < a /\ a < 1)%Q) l x r,
     (maxmin (qlow a) l i <= nth i x 0)%Q /\ (nth i x 0 <= maxmin (qupp a) l i)%Q.
 Proof. exact quantile_path_between_maxmin. Qed.
 Print Assumptions C02_between_maxmin.
+
+(* non-vacuity *)
+From MD Require Import proofs.Examples.
+Theorem C02_example :
+  exists x r, isotonic_regression [7; -1; -6; 2; 2; 0]%Q None true IFquantile (1#4) = IOk (x, r) /\ length x = 6%nat.
+Proof. exact ex_iso_quantile. Qed.
+Print Assumptions C02_example.
